@@ -48,6 +48,7 @@ type vEvent struct {
 
 // vMonitor collects events from all instrumented clients of one manager.
 type vMonitor struct {
+	cgates  map[string]chan struct{} // constructors held back by the harness (by node id)
 	mu      sync.Mutex
 	seq     int64
 	events  []vEvent
@@ -112,9 +113,33 @@ type vClient struct {
 	stopped int32
 }
 
+// gateConstruct makes the constructor of the client for node id wait (at most 15 s) until release is called.
+func (m *vMonitor) gateConstruct(id string) (release func()) {
+	ch := make(chan struct{})
+	m.mu.Lock()
+	if m.cgates == nil {
+		m.cgates = map[string]chan struct{}{}
+	}
+	m.cgates[id] = ch
+	m.mu.Unlock()
+	var once sync.Once
+	return func() { once.Do(func() { close(ch) }) }
+}
+
 func (m *vMonitor) construct(_ *nats.Conn, config VNode) client.Client {
 	// a constructor that takes a while: this runs between the manager's read of the node and its subscription
 	m.sleep("client.construct")
+	m.mu.Lock()
+	gate := m.cgates[config.ID]
+	delete(m.cgates, config.ID)
+	m.mu.Unlock()
+	if gate != nil {
+		m.add(vEvent{Kind: "construct-entered", Node: config.ID, Parent: config.Parent})
+		select {
+		case <-gate:
+		case <-time.After(15 * time.Second):
+		}
+	}
 	m.mu.Lock()
 	m.nextCl++
 	n := m.nextCl
